@@ -129,7 +129,7 @@ func (v *c10Env) expr(x ast.Expr) string {
 		fn := v.s.src(n.Fun)
 		switch {
 		case fn == "errors.Is" && len(n.Args) == 2:
-			return "(" + v.expr(n.Args[0]) + " == " + v.expr(n.Args[1]) + ")"
+			return "(errorsIs " + v.expr(n.Args[0]) + " " + v.expr(n.Args[1]) + ")"
 		case fn == "atomic.LoadInt32" && len(n.Args) == 1:
 			if u, ok := n.Args[0].(*ast.UnaryExpr); ok && u.Op == token.AND {
 				return v.expr(u.X)
@@ -234,6 +234,7 @@ func (e *emitter) c10Semantic(s *source) {
 		return v
 	}
 	e.printf("/-- error codes of the translation (a convention of the extractor, equal to `Spec.encErr`) -/\ndef errCancelWithNil : Nat := 0\ndef errDeadline : Nat := 1\ndef errReduceNoOutput : Nat := 2\n\n")
+	e.printf("/-- `errors.Is(err, target)` over codes: the same value, or a USER error whose value is / wraps the target — the codes of the harness: user error 111 (code 111+4) IS `ErrReduceNoOutput`, 112 (code 112+4) wraps it (`Spec.isNoOutput`) -/\ndef errorsIs (err target : Option Nat) : Bool :=\n  err == target || (target == some errReduceNoOutput && (err == some 115 || err == some 116))\n\n")
 
 	e.c10Def("withWorkers", "`WithWorkers(workers)`: the value stored into opts.workers", "(workers : Int)", "Int", func() string {
 		lits := c10Lits(c10Func(s, f, "WithWorkers").Body)
@@ -396,19 +397,48 @@ func (e *emitter) c10Semantic(s *source) {
 		c10Failf("context case not found")
 		return ""
 	})
-	e.c10Def("voidReturn", "what `MapReduceVoid` returns for the error of `MapReduce`", "(err : Option Nat)", "Option Nat", func() string {
+	e.c10Def("voidReturn", "what `MapReduceVoid` returns for the error of `MapReduce` (`fromCancel` = the error carries the mark of `markCancel`: the type assertion `err.(cancelError)` succeeds)", "(fromCancel : Bool) (err : Option Nat)", "Option Nat", func() string {
 		fd := c10Func(s, f, "MapReduceVoid")
-		if len(fd.Body.List) != 3 {
-			c10Failf("three statements expected")
+		if len(fd.Body.List) != 4 {
+			c10Failf("four statements expected: call, if marked, if no output, return")
 		}
-		i := c10FirstIf(fd.Body.List[1:2])
+		retOf := func(st ast.Stmt) ast.Expr {
+			r, ok := st.(*ast.ReturnStmt)
+			if !ok || len(r.Results) != 1 {
+				c10Failf("return of one value expected")
+			}
+			return r.Results[0]
+		}
+		i0, ok0 := fd.Body.List[1].(*ast.IfStmt)
+		if !ok0 || i0.Init == nil || s.src(i0.Init) != "ce, ok := err.(cancelError)" || i0.Else != nil || len(i0.Body.List) != 1 {
+			c10Failf("`if ce, ok := err.(cancelError); ok { return ce.error }` expected")
+		}
+		// ce.error is the error that was handed to cancel: the same code as `err` in the model's domain
+		v0 := env(map[string]string{"ok": "fromCancel", "ce.error": "err"})
+		i := c10FirstIf(fd.Body.List[2:3])
 		v := env(map[string]string{"err": "err"})
-		r1, ok1 := i.Body.List[0].(*ast.ReturnStmt)
-		r2, ok2 := fd.Body.List[2].(*ast.ReturnStmt)
-		if !ok1 || !ok2 || len(i.Body.List) != 1 || len(r1.Results) != 1 || len(r2.Results) != 1 || i.Else != nil {
+		if len(i.Body.List) != 1 || i.Else != nil || i.Init != nil {
 			c10Failf("if … { return x }; return y expected")
 		}
-		return "if " + v.expr(i.Cond) + " then " + v.expr(r1.Results[0]) + " else " + v.expr(r2.Results[0])
+		return "if " + v0.expr(i0.Cond) + " then " + v0.expr(retOf(i0.Body.List[0])) + " else if " + v.expr(i.Cond) + " then " +
+			v.expr(retOf(i.Body.List[0])) + " else " + v.expr(retOf(fd.Body.List[3]))
+	})
+	e.c10Def("markCancelArg", "`markCancel(cancel)(err)`: (what is handed to the real cancel, whether it carries the mark)", "(err : Option Nat)", "Option Nat × Bool", func() string {
+		lits := c10Lits(c10Func(s, f, "markCancel").Body)
+		if len(lits) != 1 || len(lits[0].Body.List) != 2 {
+			c10Failf("return func(err error) { if …; cancel(err) } expected")
+		}
+		i := c10FirstIf(lits[0].Body.List[:1])
+		l, r := c10OnlyAssign(s, i.Body)
+		cl, okc := r.(*ast.CompositeLit)
+		if l != "err" || i.Else != nil || !okc || s.src(cl.Type) != "cancelError" || len(cl.Elts) != 1 || s.src(cl.Elts[0]) != "err" {
+			c10Failf("`if err != nil { err = cancelError{err} }` expected")
+		}
+		arg := c10OnlyCallArg(s, &ast.BlockStmt{List: lits[0].Body.List[1:]}, "cancel", 0)
+		if s.src(arg) != "err" {
+			c10Failf("cancel(err) expected")
+		}
+		return "if " + env(map[string]string{"err": "err"}).expr(i.Cond) + " then (err, true) else (err, false)"
 	})
 	for _, fn := range []string{"Finish", "FinishVoid"} {
 		fn := fn
@@ -537,6 +567,274 @@ func (e *emitter) c10Stores(s *source, rel, goName, leanName string) {
 	e.stringList(leanName, "stores to fields in `"+goName+"` ("+rel+")", out)
 }
 
+// ---------------------------------------------------------------- round 5: the ORDER OF EFFECTS as a typed list
+//
+// The cleanup paths of the pipeline (cancel, finish, the deferred functions of the generator / dispatcher / worker /
+// reducer goroutines and of the caller, the caller's panic and context cases) are straight-line sequences of channel
+// closes, drains, wait-group calls and panic hand-overs.  Their order is what the model's step tables encode (and what
+// the seeded changes C10-2 and C10-4 broke).  They are extracted as lists over the inductive type `Eff`; a statement
+// outside the vocabulary becomes `Eff.other "<source>"` and breaks the Tie.
+
+const c10EffDecl = `/-- one effect of a cleanup path (round 5: typed, in source order) -/
+inductive Eff
+  | retErrSet            -- retErr.Set(err) / retErr.Set(ErrCancelWithNil) (both branches of ` + "`if err != nil`" + `)
+  | drainSource | drainCollector | drainOutput
+  | finish               -- finish()
+  | closeDone | closeOutput | closeCollector | closeSource
+  | wgWait | wgDone | poolRelease
+  | recoverBegin | recoverEnd      -- if r := recover(); r != nil { … }
+  | failedInc | panicWrite         -- atomic.AddInt32(&failed, 1) / panicChan.write(r)
+  | rangeOutputPanic               -- for range output { panic("more than one element …") }
+  | repanic | panicV               -- panicChan.repanic() / panic(v)
+  | cancelDeadline | errDeadline   -- cancel(context.DeadlineExceeded) / err = context.DeadlineExceeded
+  | callUser (f : String)          -- the call of the user function
+  | other (src : String)
+  deriving DecidableEq, Repr
+
+`
+
+func c10EffOfCall(src string) string {
+	switch src {
+	case "drain(source)", "drain(mCtx.source)":
+		return ".drainSource"
+	case "drain(collector)":
+		return ".drainCollector"
+	case "drain(output)":
+		return ".drainOutput"
+	case "finish()":
+		return ".finish"
+	case "close(done)":
+		return ".closeDone"
+	case "close(output)":
+		return ".closeOutput"
+	case "close(mCtx.collector)":
+		return ".closeCollector"
+	case "close(source)":
+		return ".closeSource"
+	case "wg.Wait()":
+		return ".wgWait"
+	case "wg.Done()":
+		return ".wgDone"
+	case "atomic.AddInt32(&failed, 1)":
+		return ".failedInc"
+	case "panicChan.write(r)", "mCtx.panicChan.write(r)":
+		return ".panicWrite"
+	case "panicChan.repanic()":
+		return ".repanic"
+	case "panic(v)":
+		return ".panicV"
+	case "cancel(context.DeadlineExceeded)":
+		return ".cancelDeadline"
+	case "generate(source)":
+		return ".callUser \"generate\""
+	case "mCtx.mapper(item, writer)":
+		return ".callUser \"mapper\""
+	case "reducer(collector, writer, cancel)":
+		return ".callUser \"reducer\""
+	}
+	return ""
+}
+
+func (s *source) c10Effects(list []ast.Stmt) []string {
+	var out []string
+	other := func(n ast.Node) { out = append(out, ".other "+leanStr(s.src(n))) }
+	for _, st := range list {
+		switch x := st.(type) {
+		case *ast.ExprStmt:
+			if u, ok := x.X.(*ast.UnaryExpr); ok && u.Op == token.ARROW && s.src(u.X) == "pool" {
+				out = append(out, ".poolRelease")
+				continue
+			}
+			if c, ok := x.X.(*ast.CallExpr); ok {
+				if e := c10EffOfCall(s.src(c)); e != "" {
+					out = append(out, e)
+					continue
+				}
+				// closeOnce.Do(func(){…}) / once.Do(func(){…}): the effects of the literal
+				if (s.src(c.Fun) == "closeOnce.Do") && len(c.Args) == 1 {
+					if l, ok := c.Args[0].(*ast.FuncLit); ok {
+						out = append(out, s.c10Effects(l.Body.List)...)
+						continue
+					}
+				}
+			}
+			other(st)
+		case *ast.IfStmt:
+			if x.Init != nil && s.src(x.Init) == "r := recover()" && s.src(x.Cond) == "r != nil" && x.Else == nil {
+				out = append(out, ".recoverBegin")
+				out = append(out, s.c10Effects(x.Body.List)...)
+				out = append(out, ".recoverEnd")
+				continue
+			}
+			if x.Init == nil && s.src(x.Cond) == "err != nil" && x.Else != nil {
+				if eb, ok := x.Else.(*ast.BlockStmt); ok && len(x.Body.List) == 1 && len(eb.List) == 1 &&
+					strings.HasPrefix(s.src(x.Body.List[0]), "retErr.Set(") && strings.HasPrefix(s.src(eb.List[0]), "retErr.Set(") {
+					out = append(out, ".retErrSet")
+					continue
+				}
+			}
+			other(st)
+		case *ast.RangeStmt:
+			if s.src(x.X) == "output" && len(x.Body.List) == 1 && strings.HasPrefix(s.src(x.Body.List[0]), "panic(") {
+				out = append(out, ".rangeOutputPanic")
+				continue
+			}
+			other(st)
+		case *ast.AssignStmt:
+			if s.src(x) == "err = context.DeadlineExceeded" {
+				out = append(out, ".errDeadline")
+				continue
+			}
+			other(st)
+		default:
+			other(st)
+		}
+	}
+	return out
+}
+
+func leanStr(x string) string {
+	x = strings.ReplaceAll(x, "\\", "\\\\")
+	x = strings.ReplaceAll(x, "\"", "\\\"")
+	x = strings.ReplaceAll(x, "\n", " ")
+	x = strings.ReplaceAll(x, "\t", "")
+	return "\"" + x + "\""
+}
+
+func (e *emitter) c10EffDef(name, doc string, get func() []ast.Stmt, s *source) {
+	e.c10Def(name, doc, "", "List Eff", func() string {
+		return "[" + strings.Join(s.c10Effects(get()), ", ") + "]"
+	})
+}
+
+// c10DeferLit: the body of the first `defer func(){…}()` directly in the statement list.
+func c10DeferLit(list []ast.Stmt) []ast.Stmt {
+	for _, st := range list {
+		if d, ok := st.(*ast.DeferStmt); ok {
+			if l, ok := d.Call.Fun.(*ast.FuncLit); ok {
+				return l.Body.List
+			}
+		}
+	}
+	c10Failf("no deferred function literal")
+	return nil
+}
+
+// c10GoLits: the bodies of the `go func(){…}()` statements found anywhere in the node, in source order.
+func c10GoLits(n ast.Node) [][]ast.Stmt {
+	var out [][]ast.Stmt
+	ast.Inspect(n, func(x ast.Node) bool {
+		if g, ok := x.(*ast.GoStmt); ok {
+			if l, ok := g.Call.Fun.(*ast.FuncLit); ok {
+				out = append(out, l.Body.List)
+			}
+		}
+		return true
+	})
+	return out
+}
+
+func (e *emitter) c10EffectLists(s *source) {
+	const f = "core/mr/mapreduce.go"
+	e.printf("%s", c10EffDecl)
+	mr := func() *ast.FuncDecl { return c10Func(s, f, "mapReduceWithPanicChan") }
+	litArgOf := func(fd *ast.FuncDecl, callee string) *ast.FuncLit {
+		var lit *ast.FuncLit
+		ast.Inspect(fd.Body, func(n ast.Node) bool {
+			if c, ok := n.(*ast.CallExpr); ok && s.src(c.Fun) == callee && len(c.Args) == 1 && lit == nil {
+				lit, _ = c.Args[0].(*ast.FuncLit)
+			}
+			return true
+		})
+		if lit == nil {
+			c10Failf("%s(func…) not found", callee)
+		}
+		return lit
+	}
+	e.c10EffDef("cancelEffects", "`cancel` (the function handed to `once`): record the error, THEN drain the source, THEN finish", func() []ast.Stmt {
+		return litArgOf(mr(), "once").Body.List
+	}, s)
+	e.c10EffDef("finishEffects", "`finish` (under closeOnce): close(done), then close(output)", func() []ast.Stmt {
+		var fin *ast.FuncLit
+		for _, st := range mr().Body.List {
+			if a, ok := st.(*ast.AssignStmt); ok && len(a.Lhs) == 1 && s.src(a.Lhs[0]) == "finish" {
+				fin, _ = a.Rhs[0].(*ast.FuncLit)
+			}
+		}
+		if fin == nil {
+			c10Failf("finish := func(){…} not found")
+		}
+		return fin.Body.List
+	}, s)
+	e.c10EffDef("callerDeferEffects", "the caller's deferred function: wait for the reducer goroutine (output closed), then re-raise a captured panic", func() []ast.Stmt {
+		return c10DeferLit(mr().Body.List)
+	}, s)
+	e.c10EffDef("reducerGoEffects", "the reducer goroutine: [deferred: drain collector, hand over a panic, finish] after the user reducer", func() []ast.Stmt {
+		gl := c10GoLits(mr().Body)
+		if len(gl) != 1 {
+			c10Failf("one go func(){…}() expected in mapReduceWithPanicChan")
+		}
+		body := gl[0]
+		var rest []ast.Stmt
+		for _, st := range body {
+			if _, ok := st.(*ast.DeferStmt); !ok {
+				rest = append(rest, st)
+			}
+		}
+		return append(rest, c10DeferLit(body)...)
+	}, s)
+	sel := func(comm string) []ast.Stmt {
+		for _, st := range mr().Body.List {
+			if x, ok := st.(*ast.SelectStmt); ok {
+				for _, cl := range x.Body.List {
+					cc := cl.(*ast.CommClause)
+					if cc.Comm != nil && s.src(cc.Comm) == comm {
+						return cc.Body
+					}
+				}
+			}
+		}
+		c10Failf("select case %s not found", comm)
+		return nil
+	}
+	e.c10EffDef("callerPanicCaseEffects", "the caller's panic case: drain output (so that the deferred range does not panic), then re-raise", func() []ast.Stmt {
+		return sel("v := <-panicChan.channel")
+	}, s)
+	e.c10EffDef("callerCtxCaseEffects", "the caller's context case: cancel(DeadlineExceeded), then err = DeadlineExceeded", func() []ast.Stmt {
+		return sel("<-options.ctx.Done()")
+	}, s)
+	em := func() *ast.FuncDecl { return c10Func(s, f, "executeMappers") }
+	e.c10EffDef("dispatcherDeferEffects", "executeMappers' deferred function: wait for the workers, close the collector, drain the source", func() []ast.Stmt {
+		return c10DeferLit(em().Body.List)
+	}, s)
+	e.c10EffDef("workerGoEffects", "one worker goroutine: the mapper, then [deferred: count + hand over a panic, wg.Done, release the pool slot]", func() []ast.Stmt {
+		gl := c10GoLits(em().Body)
+		if len(gl) != 1 {
+			c10Failf("one go func(){…}() expected in executeMappers")
+		}
+		var rest []ast.Stmt
+		for _, st := range gl[0] {
+			if _, ok := st.(*ast.DeferStmt); !ok {
+				rest = append(rest, st)
+			}
+		}
+		return append(rest, c10DeferLit(gl[0])...)
+	}, s)
+	e.c10EffDef("generatorGoEffects", "the generator goroutine: generate, then [deferred: hand over a panic, close the source]", func() []ast.Stmt {
+		gl := c10GoLits(c10Func(s, f, "buildSource").Body)
+		if len(gl) != 1 {
+			c10Failf("one go func(){…}() expected in buildSource")
+		}
+		var rest []ast.Stmt
+		for _, st := range gl[0] {
+			if _, ok := st.(*ast.DeferStmt); !ok {
+				rest = append(rest, st)
+			}
+		}
+		return append(rest, c10DeferLit(gl[0])...)
+	}, s)
+}
+
 func c10Func0(s *source, rel, name string) ast.Node {
 	fd := s.findFunc(rel, name)
 	if fd == nil {
@@ -599,6 +897,9 @@ func init() {
 		e.c10CallArgs(s, f, "ForEach", "buildSource", "forEachBuildSourceArgs")
 		e.c10CallArgs(s, f, "MapReduceChan", "mapReduceWithPanicChan", "mapReduceChanForwardArgs")
 		e.c10CallArgs(s, f, "MapReduceVoid", "MapReduce", "mapReduceVoidForwardArgs")
+		e.c10CallArgs(s, f, "MapReduceVoid", "mapper", "mapReduceVoidMapperArgs")
+		e.c10CallArgs(s, f, "MapReduceVoid", "reducer", "mapReduceVoidReducerArgs")
+		e.shapeDef(s, f, "markCancel", "markCancelShape")
 		e.c10CallArgs(s, f, "mapReduceWithPanicChan", "reducer", "reducerCallArgs")
 		e.c10CallArgs(s, f, "mapReduceWithPanicChan", "mapper", "mapperCallArgs")
 		e.c10CallArgs(s, f, "mapReduceWithPanicChan", "drain", "callerDrainArgs")
@@ -606,5 +907,6 @@ func init() {
 		e.c10CallArgs(s, f, "executeMappers", "mCtx.mapper", "dispatcherMapperArgs")
 		e.c10CallArgs(s, f, "executeMappers", "wg.Add", "dispatcherWgAddArgs")
 		e.c10Semantic(s)
+		e.c10EffectLists(s)
 	})
 }
